@@ -71,8 +71,14 @@ def _build(ctx, st, P, bad=None):
         # qualifier values written by a script as tuples instead of lists (Biopython accepts any container); which
         # records do is symbolic
         for i, rec in enumerate(recs):
-            if "citation" in rec.features[0].qualifiers and mk.bool("tuple_%d" % i):
-                rec.features[0].qualifiers["citation"] = tuple(rec.features[0].qualifiers["citation"])
+            if "citation" in rec.features[0].qualifiers:
+                kind = mk.pick("container_%d" % i, 3)  # 0 list, 1 tuple, 2 bare string (hand-built feature)
+                cits = rec.features[0].qualifiers["citation"]
+                if kind == 1:
+                    rec.features[0].qualifiers["citation"] = tuple(cits)
+                elif kind == 2 and len(cits) == 1:
+                    rec.features[0].qualifiers["citation"] = cits[0]
+                    ctx.bare_string = True
     if P.get("alias") == "shared-list":
         # two features of one record share their citation list object (as a feature copied with qualifiers.copy() does)
         recs[0].features[1].qualifiers["citation"] = recs[0].features[0].qualifiers["citation"]
@@ -125,6 +131,10 @@ def ob_pure(ctx):
     if data_fault:
         allowed = ["InvalidSequence", "DuplicateModules", "raised:IndexError", "raised:ValueError"]
         ctx.witness("citation-fault-hit", o1["kind"].startswith("raised:"))
+    if getattr(ctx, "bare_string", False):
+        # a bare string is not a list of citations; refusing it (today: ValueError) is as good as accepting it, as long
+        # as the inputs are left as they were
+        allowed = allowed + ["raised:ValueError", "raised:TypeError"]
     if P.get("alias"):
         # whatever the call does with an aliased input (today: TypeError on the second dereference), it must be pure
         allowed = allowed + ["raised:TypeError", "raised:ValueError", "raised:AttributeError", "raised:IndexError"]
@@ -171,10 +181,10 @@ def obligations(tier, seed):
             obs.append(Ob("purity m=1 citations-everywhere=False symbolic-feature-in=el%d, structure %s" % (sympos, spans), ob_pure,
                           dict(m=1, refs=False, sympos=sympos, spans=spans, fault=0), samples=10, cost=50, group="spans",
                           expect_witness=("product",)))
-    obs.append(Ob("purity m=1 citations-everywhere=True, some citation qualifiers are tuples", ob_pure,
+    obs.append(Ob("purity m=1 citations-everywhere=True, citation qualifiers held in lists, tuples or bare strings", ob_pure,
                   dict(m=1, refs=True, sympos=0, container="tuple", fault=0), samples=10, cost=60, group="containers",
                   expect_witness=("product",)))
-    obs.append(Ob("purity m=2 citations-everywhere=True, some citation qualifiers are tuples", ob_pure,
+    obs.append(Ob("purity m=2 citations-everywhere=True, citation qualifiers held in lists, tuples or bare strings", ob_pure,
                   dict(m=2, refs=True, sympos=0, container="tuple", fault=0), samples=6, cost=900, group="containers"))
     for m in range(1, tier_pick(tier, 2, 3) + 1):
         for refs in (True, False):
